@@ -1,173 +1,36 @@
-From Dnp3V Require Import Outstation.Session Outstation.SessionLemmas_c05.
+From Dnp3V Require Import Outstation.Session Outstation.SessionLemmas_c05 Outstation.SessionC05Proofs.
 Open Scope N_scope.
 
-(* ---------- the invariant through deadlines ---------------------------------------------------------------------------- *)
+Definition next_fid (s : ostate) : N := (s_frame_id s + 1) mod 4294967296.
+Definition rx_state (s : ostate) : ostate := upd_frame_id s (next_fid s).
 
-Lemma inv_same cfg h s s1 :
-  frame s s1 -> inv cfg h s -> inv cfg h s1.
+Lemma on_rx_idle cfg s from bc bytes d :
+  s_control s = CIdle ->
+  on_rx cfg s from bc bytes d =
+  idle_loop 8 cfg (upd_pending (rx_state s) (Some (from, bc, bytes, d, next_fid s))).
+Proof. intros Hc. unfold on_rx, rx_state, next_fid. cbv zeta. psimpl. rewrite Hc. reflexivity. Qed.
+
+Lemma on_rx_unsol cfg s from bc bytes d resp is_null retries deadline :
+  s_control s = CUnsolWait resp is_null retries deadline ->
+  on_rx cfg s from bc bytes d =
+  let '(s1, res, o) := unsol_wait_fragment cfg (rx_state s) resp from bc bytes d (next_fid s) in
+  match res with
+  | None => (s1, o)
+  | Some r =>
+      let '(s2, ns, o2) := end_unsol cfg s1 is_null r in
+      let '(s3, o3) := resume_at cfg (St3 ns) s2 in
+      (s3, o ++ o2 ++ o3)
+  end.
+Proof. intros Hc. unfold on_rx, rx_state, next_fid. cbv zeta. psimpl. rewrite Hc. reflexivity. Qed.
+
+Lemma on_rx_sol_new cfg s from bc bytes d se deadline r o :
+  s_control s = CSolWait se deadline r ->
+  sol_wait_fragment cfg (rx_state s) se deadline from bc bytes d = (SoNewRequest, o) ->
+  on_rx cfg s from bc bytes d =
+  let '(s2, o2) := resume_at cfg (stage_of r)
+                     (upd_pending (upd_control (rx_state s) CIdle) (Some (from, bc, bytes, d, next_fid s))) in
+  (s2, o ++ [ODb DbReset] ++ o2).
 Proof.
-  intros [[Fc [Fl [Fd [Fp [Fn Fu]]]]] Fb] [[A [B [C D]]] [E1 E2]].
-  split; [split; [|split; [|split]]|split].
-  - apply sol_coh_same with (s := s); auto.
-  - intros resp n rt dl Hc. rewrite Fc in Hc. rewrite Fu. eauto.
-  - apply wait_coh_frame with (s := s); auto.
-  - apply def_ok_same with (s := s); auto.
-  - congruence.
-  - rewrite Fd, Fc. exact E2.
+  intros Hc Hw. unfold on_rx. cbv zeta. fold (next_fid s). fold (rx_state s).
+  replace (s_control (rx_state s)) with (s_control s) by reflexivity. rewrite Hc, Hw. reflexivity.
 Qed.
-
-Lemma resume_pres cfg h st s s' o pre :
-  resume_at cfg st s = (s', o) ->
-  s_control s = CIdle -> stage_ok st s -> def_ok cfg s -> sol_coh cfg (h ++ pre) s ->
-  inv cfg (h ++ pre ++ o) s'.
-Proof.
-  unfold resume_at. intros H Hc Hst Hd Hcoh.
-  apply idle_run_pres with (h := h ++ pre) in H as [A _]; auto.
-  - rewrite <- app_assoc in A. exact A.
-  - pose proof (need_le_32 st s). lia.
-Qed.
-
-Lemma rest_ok_deferred_none s :
-  rest_ok s -> (forall resp n rt dl, s_control s <> CUnsolWait resp n rt dl) -> s_deferred s = None.
-Proof.
-  intros [_ H] Hc. destruct (s_deferred s) eqn:E; [|reflexivity].
-  destruct H as [resp [n [rt [dl X]]]]; [discriminate|]. destruct (Hc _ _ _ _ X).
-Qed.
-
-Lemma stage_ok_of_none st s : s_deferred s = None -> stage_ok st s.
-Proof. destruct st; cbn [stage_ok]; auto. Qed.
-
-Lemma fire_deadline_pres cfg h s s' o :
-  fire_deadline cfg s = (s', o) -> inv cfg h s -> inv cfg (h ++ o) s'.
-Proof.
-  unfold fire_deadline. intros H Hinv.
-  destruct (s_control s) as [|se dl r|resp is_null retries dl] eqn:Ec;
-    pose proof Hinv as [[A [B [C D]]] [E1 E2]].
-  - apply resume_pres with (h := h) (pre := []) in H; auto.
-    + apply stage_ok_of_none. apply rest_ok_deferred_none; [split; auto|]. intros. rewrite Ec. discriminate.
-    + rewrite app_nil_r. exact A.
-  - destruct (resume_at cfg (stage_of r) (upd_control s CIdle)) as [s1 o1] eqn:E. inv_pair H.
-    apply resume_pres with (h := h) (pre := [OInfo (ISolTimeout (se_ecsn se)); ODb DbReset]) in E; auto.
-    + apply stage_ok_of_none. psimpl. apply rest_ok_deferred_none; [split; auto|]. intros. rewrite Ec. discriminate.
-    + apply sol_coh_frame with (s := s); auto.
-  - match type of H with (if ?c then _ else _) = _ => destruct c end.
-    + inv_pair H. unfold repeat_unsolicited. split; [split; [|split; [|split]]|split].
-      * apply sol_coh_frame with (s := s); auto.
-      * intros resp' n rt' dl' Hc. psimpl_in Hc. inversion Hc; subst. psimpl.
-        destruct (B _ _ _ _ Ec) as [B1 B2]. split; [|exact B2]. apply opened_by_app; [reflexivity | exact B1].
-      * apply wait_coh_not_wait. intros. psimpl. discriminate.
-      * exact D.
-      * exact E1.
-      * intros _. psimpl. eauto.
-    + destruct (end_unsol cfg s is_null UrTimeout) as [[s1 ns] o1] eqn:Ee.
-      apply end_unsol_spec in Ee as [[[Fc [Fl [Fd [Fp [Fn Fu]]]]] Fb] Se].
-      psimpl_in Fc. psimpl_in Fl. psimpl_in Fd. psimpl_in Fp. psimpl_in Fn. psimpl_in Fb.
-      destruct (resume_at cfg (St3 ns) s1) as [s2 o2] eqn:E. inv_pair H.
-      apply resume_pres with (h := h) (pre := [OInfo (IUnsolTimeout (ctl_seq (r_ctl resp)) false)] ++ o1) in E; auto.
-      * cbn [stage_ok]. intros X. congruence.
-      * apply def_ok_same with (s := s); auto.
-      * apply sol_coh_frame with (s := s); auto.
-Qed.
-
-Lemma inv_upd_now cfg h s t : inv cfg h s -> inv cfg h (upd_now s t).
-Proof. apply inv_same. frame_tac. Qed.
-
-Lemma advance_pres cfg : forall f s target h s' o,
-  advance f cfg s target = (s', o) -> inv cfg h s -> inv cfg (h ++ o) s'.
-Proof.
-  induction f as [|f IH]; intros s target h s' o H Hinv; cbn [advance] in H.
-  { inv_pair H. apply inv_upd_now. destruct Hinv as [[A [B [C D]]] E]. split; [split; [|split; [|split]]|]; auto.
-    - apply sol_coh_frame with (s := s); auto.
-    - apply unsol_coh_frame with (s := s); auto. }
-  assert (Hstay : inv cfg (h ++ []) (upd_now s target)) by (rewrite app_nil_r; apply inv_upd_now; exact Hinv).
-  destruct (next_deadline cfg s) as [d|]; [|inv_pair H; exact Hstay].
-  destruct (d <=? target)%Z; [|inv_pair H; exact Hstay].
-  destruct (fire_deadline cfg (upd_now s (Z.max d (s_now s)))) as [s1 o1] eqn:Ef.
-  destruct (advance f cfg s1 target) as [s2 o2] eqn:Ea. inv_pair H.
-  apply fire_deadline_pres with (h := h ++ [OAt (Z.max d (s_now s))]) in Ef.
-  - apply IH with (h := (h ++ [OAt (Z.max d (s_now s))]) ++ o1) in Ea; auto.
-    rewrite <- !app_assoc in Ea. exact Ea.
-  - apply inv_upd_now. destruct Hinv as [[A [B [C D]]] E]. split; [split; [|split; [|split]]|]; auto.
-    + apply sol_coh_frame with (s := s); auto.
-    + apply unsol_coh_frame with (s := s); auto.
-Qed.
-
-(* ---------- a received fragment ------------------------------------------------------------------------------------------- *)
-
-Lemma sol_wait_fragment_spec cfg s se dl from bc bytes d out o :
-  sol_wait_fragment cfg s se dl from bc bytes d = (out, o) ->
-  forallb bg o = true /\ forallb not_enter_unsol o = true /\
-  (forall rt, out = SoConfirmed rt -> rt = from /\ (o_any_master cfg = false -> from = o_master cfg)).
-Proof.
-  unfold sol_wait_fragment. intros H.
-  destruct (to_treq cfg from d) as [|q|ctl fn obj] eqn:Et.
-  - inv_pair H. splits; auto. discriminate.
-  - inv_pair H. splits; auto. discriminate.
-  - pose proof (to_treq_from _ _ _ _ _ _ Et) as Hfrom.
-    destruct (classify s bc bytes ctl fn obj) as [iin2|hdrs rh|resp hdrs rh|hdrs|resp|m|q|q];
-      try (inv_pair H; splits; auto; discriminate).
-    + inv_pair H. unfold repeat_solicited. destruct resp; splits; auto; discriminate.
-    + destruct (q =? se_ecsn se); inv_pair H; splits; auto; try discriminate.
-      intros rt X. inversion X; subst. auto.
-Qed.
-
-Lemma inv_sol_coh_app cfg h s o : sol_coh cfg h s -> sol_coh cfg (h ++ o) s.
-Proof. apply sol_coh_frame; reflexivity. Qed.
-
-Lemma on_rx_pres cfg h s from bc bytes d s' o :
-  on_rx cfg s from bc bytes d = (s', o) -> inv cfg h s -> inv cfg (h ++ o) s'.
-Proof.
-  unfold on_rx. cbv zeta. intros H Hinv.
-  set (fid := (s_frame_id s + 1) mod 4294967296) in *.
-  set (s0 := upd_frame_id s fid) in *.
-  assert (Hinv0 : inv cfg h s0) by (apply inv_same with (s := s); [subst s0; frame_tac | exact Hinv]).
-  clearbody s0. clear Hinv.
-  destruct (s_control s0) as [|se dl r|resp is_null retries dl] eqn:Ec;
-    pose proof Hinv0 as [[A [B [C D]]] [E1 E2]].
-  - (* idle *)
-    unfold idle_loop in H. change (4 * 8)%nat with 32%nat in H. fold (resume_at cfg St1) in H.
-    apply resume_pres with (h := h) (pre := []) in H; auto.
-    + apply stage_ok_of_none. psimpl. apply rest_ok_deferred_none; [split; auto|]. intros ? ? ? ? X. rewrite Ec in X. discriminate.
-    + rewrite app_nil_r. apply sol_coh_same with (s := s0); auto.
-  - (* solicited confirm wait *)
-    assert (Hdn : s_deferred s0 = None).
-    { apply rest_ok_deferred_none; [split; auto|]. intros ? ? ? ? X. rewrite Ec in X. discriminate. }
-    destruct (sol_wait_fragment cfg s0 se dl from bc bytes d) as [out o1] eqn:Ew.
-    apply sol_wait_fragment_spec in Ew as [S1 [S2 Hrt]].
-    destruct out as [dl'|rt|].
-    + inv_pair H. split; [split; [|split; [|split]]|split]; psimpl; auto.
-      * apply sol_coh_frame with (s := s0); auto.
-      * apply unsol_coh_vacuous. intros. psimpl. discriminate.
-      * intros se0 dl0 rs0 X. psimpl_in X. inversion X; subst. psimpl. eapply C; eauto.
-      * intros X. congruence.
-    + destruct (Hrt _ eq_refl) as [-> Hfrom].
-      destruct (se_fin se).
-      * destruct (resume_at cfg (stage_of r) (upd_control (upd_last_bcast s0 None) CIdle)) as [s2 o2] eqn:E.
-        inv_pair H.
-        apply resume_pres with (h := h) (pre := o1 ++ [ODb DbClearWritten]) in E; auto.
-        -- rewrite <- !app_assoc in E. exact E.
-        -- apply stage_ok_of_none. psimpl. exact Hdn.
-        -- apply sol_coh_frame with (s := s0); auto.
-      * destruct (format_read_response (upd_last_bcast s0 None) false (seq16_next (se_ecsn se)) 0)
-          as [[[s2 rsp] next] o2] eqn:Ef.
-        destruct (write_solicited s2 from rsp) as [[s3 rsp'] o3] eqn:Es.
-        apply format_read_response_spec in Ef as [[Fc [Fl [Fd [Fp [Fn Fu]]]]] [Sf [Q1 Q2]]].
-        apply write_solicited_spec in Es as [[[Gc [Gl [Gd [Gp [Gn Gu]]]]] Gb] [_ [_ [Hq [o' [-> Ss]]]]]].
-        psimpl_in Fc. psimpl_in Fl. psimpl_in Fd. psimpl_in Fp. psimpl_in Fn. psimpl_in Fu.
-        destruct (C _ _ _ Ec) as [l0 [r0 [Hl0 [Hr0 _]]]].
-        assert (Hl3 : s_last s3 = Some l0) by congruence. rewrite Hl3 in H.
-        set (s4 := upd_last s3 (Some {| lr_seq := lr_seq l0; lr_bytes := lr_bytes l0;
-                                        lr_response := Some rsp'; lr_series := lr_series l0 |})) in *.
-        assert (Hcoh4 : forall o4, sol_coh cfg (h ++ o1 ++ [ODb DbClearWritten] ++ o2 ++ (o' ++ [OTx from (response_bytes rsp' (s_sol_buf s3))]) ++ o4) s4).
-        { intros o4 l rx Hl Hr. subst s4. psimpl_in Hl. inversion Hl; subst l. cbn [lr_response] in Hr.
-          inversion Hr; subst rx. psimpl. exists from. split; [|exact Hfrom].
-          rewrite ?in_app_iff. cbn [In]. tauto. }
-        destruct next as [n|].
-        -- inv_pair H. specialize (Hcoh4 []). rewrite app_nil_r in Hcoh4.
-           split; [split; [exact Hcoh4|split; [|split]]|split]; subst s4; psimpl.
-           ++ apply unsol_coh_vacuous. intros. psimpl. discriminate.
-           ++ intros se0 dl0 rs0 X. psimpl_in X. inversion X; subst. psimpl.
-              eexists _, rsp'. split; [reflexivity|]. split; [reflexivity|].
-              rewrite Hq, Q1, (Q2 _ eq_refl). unfold seq16_next. lia.
-           ++ Show. admit.
-Admitted.
